@@ -687,7 +687,7 @@ def run_model(orac, cfg, ops):
     return rc, lines, e
 
 
-def run_impl(ctx, cfg, ops, watchdog=5, timeout=900):
+def run_impl(ctx, cfg, ops, watchdog=5, timeout=900, two=False):
     """Feed ops to the harness in the configuration directory.  Returns (result lines, incidents).
     A crash / terminate / watchdog is attributed to the first operation without output; the rest is re-run in a fresh child."""
     exe = os.path.join(cfg.dir, "h_select")
@@ -695,6 +695,8 @@ def run_impl(ctx, cfg, ops, watchdog=5, timeout=900):
     incidents = []
     start = 0
     env = run_env(ctx, watchdog)
+    if two:
+        env["H_SELECT_TWO_MANAGERS"] = "1"      # manager A created and destroyed around the creation of B; the ops go to B
     for _ in range(12):
         if start >= len(ops):
             break
@@ -826,8 +828,9 @@ def weak_ok(cfg, o, line):
 def replay_obj(ctx, cfg, o, line, extra=None):
     r = {"configuration": cfg.describe(), "directory": os.path.relpath(cfg.dir, vlib.VERIF), "op": o["op"],
          "pattern": repr(o.get("pat")), "stream": o.get("stream"), "impl_output": line,
-         "how": "printf '%s\\n' | H_SELECT_WATCHDOG_S=20 %s/h_select   (built by this check from the repo under test; libraries next to it)"
-                % (o["op"], os.path.relpath(cfg.dir, vlib.VERIF))}
+         "how": "printf '%s\\n' | H_SELECT_WATCHDOG_S=20 %s/h_select   (built by this check from the repo under test; libraries next to it); if that "
+                "passes, the failure needs a second device manager in the process: add H_SELECT_TWO_MANAGERS=1 (manager A is created first and "
+                "destroyed once B exists; the operation goes to B)" % (o["op"], os.path.relpath(cfg.dir, vlib.VERIF))}
     if extra:
         r.update(extra)
     return r
@@ -1081,9 +1084,10 @@ def run(ctx):
         cfg, ops = work[ci]
         if kind == "m":
             return run_model(orac, cfg, ops)
-        return run_impl(ctx, cfg, ops[s:e], watchdog=4 if not thorough else 6)
+        return run_impl(ctx, cfg, ops[s:e], watchdog=4 if not thorough else 6, two=(ci + s // max(1, chunk)) % 2 == 1)
 
     results = vlib.parallel(runjob, jobs)
+    ctx.extra["two_managers"] = "every second batch of operations (by configuration and chunk) runs in a process that created a second device manager and destroyed the first"
     ctx.log("ran %d operations on %d configurations" % (sum(len(o) for _, o in work), len(work)))
     by_cfg = {}
     for j, r in zip(jobs, results):
